@@ -459,32 +459,61 @@ func runC09(c *Check) {
 			c.Undecided("R6", "anchor:"+spec.fn+".height", fn.Pos(), "height parameter not found")
 			continue
 		}
-		for _, s := range callsTo(fn, spec.callee) {
+		isMinusOne := func(want bool) EdgePred {
+			return func(iff *ssa.If, br int) bool {
+				r, ok := edgeRel(iff, br)
+				if !ok || (r.Op != token.EQL && r.Op != token.NEQ) {
+					return false
+				}
+				k, isC := constInt(r.Y)
+				if !isC || k != -1 || r.X != ssa.Value(hp) {
+					return false
+				}
+				return (r.Op == token.EQL) == want
+			}
+		}
+		anyTip := false
+		sites := callsTo(fn, spec.callee)
+		for _, s := range sites {
 			args := s.Args()
 			h := args[len(args)-1]
-			okTip := false
+			tip, raw := false, false
 			for _, x := range rootsAll(h) {
 				if loadOfField(x, a.height) != nil {
-					okTip = true
+					tip = true
 				}
 				if call, isCall := x.(*ssa.Call); isCall && calleeShort(&call.Call) == "(*storage.BlockRepository).LastHeight" {
-					okTip = true
+					tip = true
+				}
+				if x == ssa.Value(hp) {
+					raw = true
 				}
 			}
-			// and a test of height against -1 exists that selects it
-			test := false
-			for _, b := range fn.Blocks {
-				if iff, isIf := lastIf(b); isIf {
-					if r, ok := edgeRel(iff, 0); ok && (r.Op == token.EQL || r.Op == token.NEQ) {
-						if k, isC := constInt(r.Y); isC && k == -1 && r.X == ssa.Value(hp) {
-							test = true
-						}
+			if tip {
+				anyTip = true
+			}
+			ok := true
+			var w []string
+			switch {
+			case tip && raw:
+				// one call, the argument is selected by a test of height against -1
+				ok = false
+				for _, b := range fn.Blocks {
+					if iff, isIf := lastIf(b); isIf && (isMinusOne(true)(iff, 0) || isMinusOne(true)(iff, 1)) {
+						ok = true
 					}
 				}
+			case tip:
+				ok, w = mustPass(s.Instr, isMinusOne(true))
+			case raw:
+				// the raw height is passed on only where it is known not to be -1
+				ok, w = mustPass(s.Instr, isMinusOne(false))
 			}
-			c.Decide(okTip && test, "R6", spec.fn+"#minus-one-is-tip", s.Pos(), "provenance", nil,
-				"height -1 is replaced by the tip height before the lookup", "the documented -1 (tip) is not translated to the repository height before "+spec.callee+" is called")
+			c.Decide(ok, "R6", spec.fn+"#minus-one-is-tip", s.Pos(), "provenance+edge-cutset", w,
+				"-1 is translated to the repository height before the lookup", "the documented -1 (tip) is not translated to the repository height before "+spec.callee+" is called")
 		}
+		c.Decide(anyTip || len(sites) == 0, "R6", spec.fn+"#handles-minus-one", fn.Pos(), "provenance", nil,
+			"some lookup is made with the tip height", "no lookup in "+spec.fn+" uses the tip height: the documented -1 is not supported")
 	}
 }
 
